@@ -76,6 +76,8 @@ const (
 	EnableTracing                   // Print a trace of all instructions as they are interpreted.
 )
 
+var debugPanics = os.Getenv("GOSYM_PANICS") != ""
+
 type methodSet map[string]*ssa.Function
 
 // State shared between all interpreted goroutines.
@@ -607,12 +609,19 @@ func runFrame(fr *frame) {
 			return // let interpreter crash
 		}
 		p := recover()
-		switch p.(type) {
+		switch pv := p.(type) {
 		case pathEnd, unsupportedErr, goroutineKill, regionAbort:
 			panic(p) // engine-level control flow: not visible to the target program
+		case *runtime.TypeAssertionError:
+			// a failed assertion inside the interpreter itself (target assertions raise runtimeErr):
+			// an engine defect, never a behaviour of the program under test
+			panic(pathEnd{kind: "engine", msg: "interpreter fault: " + pv.Error() + "\n" + fr.i.stack()})
 		}
 		fr.panicking = true
 		fr.panic = p
+		if debugPanics && !fr.i.inInit {
+			fmt.Fprintf(os.Stderr, "target panic in %s: %v\n%s\n", fr.fn, describePanic(p), fr.i.stack())
+		}
 		if fr.i.mode&EnableTracing != 0 {
 			fmt.Fprintf(os.Stderr, "Panicking: %T %v.\n", fr.panic, fr.panic)
 		}
